@@ -146,6 +146,11 @@ theorem bitwisenot_glue_witness :
     sql baseTables (.bnot (.bnot (.col [("a", false)]))) = "~ ~a" ∧
     sql baseTables (.neg (.neg (.col [("a", false)]))) = "- -a" := by decide +kernel
 
+/-- every function found by ast that calls `annotate_types(x, …)` and then tests `y.is_type(…)` tests the expression it
+    annotated (finite table, decided completely): annotating a copy and testing the original would leave the type test on
+    an un-annotated node (e.g. TO_CHAR choosing TimeToStr vs ToChar by the type of its first argument) -/
+theorem generated_annotate_checks_same_expr : ∀ c ∈ annotateTypeChecks, c.2 = true := by decide +kernel
+
 /-! ### infix → call rewrites that strip a redundant Paren (e.g. BigQuery `a % b` → `MOD(a, b)`) -/
 
 /-- every generator site found by ast that unwraps a Paren around an operand strips ALL levels (`unnest()`) or keeps the
